@@ -82,19 +82,17 @@ TIERS = {
         relax=((0.5, 2.0), (0.7, 1.3)),
         recomp=((0.5, 2), (0.25, 1)),
         depth=6,
-        dev=2,
-        dev_short=10,
+        dev=((10, 2), (10**9, 1)),
     ),
     "thorough": dict(
-        schedules=[((0.0,), (1, 2, 3), (0.5, 1.0, 0.2, 3.0)), ((0.0,), (4,), (0.5, 0.2)),
+        schedules=[((0.0,), (1, 2), (0.5, 1.0, 0.2, 3.0)), ((0.0,), (3,), (0.5, 0.2, 3.0)), ((0.0,), (4,), (0.5, 0.2)),
                    ((1.0,), (1, 2), (0.5, 1.0, 0.2, 3.0))],
         fracs=(1.0, 0.5, 0.25, 0.2),
         dtmm=("wide", "narrow", "tight", "none"),
         relax=((0.5, 2.0), (0.7, 1.3), (0.9, 1.1)),
-        recomp=((0.5, 1), (0.5, 3), (0.25, 2)),
-        depth=8,
-        dev=3,
-        dev_short=12,
+        recomp=((0.5, 2), (0.25, 1), (0.5, 3)),
+        depth=7,
+        dev=((5, 3), (10, 2), (10**9, 1)),
     ),
 }
 BOUNDS = {
@@ -103,11 +101,11 @@ BOUNDS = {
     "{(dt/8,4dt),(dt/2,dt),(dt,first interval),None}; relax {(0.5,2),(0.7,1.3)}; (recomp_factor,recomp_max) "
     "{(0.5,2),(0.25,1)}; constant_dt on compatible schedules; H: all answer sequences up to length 6 (or "
     "closure); D: <= 2 deviations (<= 1 if the undisturbed run has > 10 solver calls), every placement, run to the end",
-    "thorough": "schedules: start 0 x 1-3 intervals from {0.5,1,0.2,3}, start 0 x 4 intervals from {0.5,0.2}, "
-    "start 1 x 1-2 intervals from {0.5,1,0.2,3}; dt_init = first interval x {1,1/2,1/4,1/5}; dt_min_max as "
-    "quick; relax {(0.5,2),(0.7,1.3),(0.9,1.1)}; (recomp_factor,recomp_max) {(0.5,1),(0.5,3),(0.25,2)}; "
-    "constant_dt; H: all answer sequences up to length 8 (or closure); D: <= 3 deviations (<= 2 if the "
-    "undisturbed run has > 12 solver calls), every placement, run to the end",
+    "thorough": "schedules: start 0 x 1-2 intervals from {0.5,1,0.2,3}, start 0 x 3 intervals from {0.5,0.2,3}, "
+    "start 0 x 4 intervals from {0.5,0.2}, start 1 x 1-2 intervals from {0.5,1,0.2,3}; dt_init = first interval x "
+    "{1,1/2,1/4,1/5}; dt_min_max as quick; relax {(0.5,2),(0.7,1.3),(0.9,1.1)}; (recomp_factor,recomp_max) "
+    "{(0.5,2),(0.25,1),(0.5,3)}; constant_dt; H: all answer sequences up to length 7 (or closure); D: <= 3 "
+    "deviations if the undisturbed run has <= 5 solver calls, <= 2 if <= 10, else <= 1; every placement, run to the end",
 }
 MIN_CLASSES = 8
 CHUNK = 4
@@ -292,7 +290,7 @@ def _mirror(cfg, answers):
     return tr
 
 
-def _deviations(cfg, cid, k, short, out: Outcome):
+def _deviations(cfg, cid, budget, out: Outcome):
     """Engine D on the real run_time_dependent_model."""
     const = bool(cfg.get("constant_dt"))
     devs = (T.FAIL,) if const else (T.LO, T.HI, T.FAIL)
@@ -302,6 +300,7 @@ def _deviations(cfg, cid, k, short, out: Outcome):
     stack = [()]
     finals = set()
     nviol = 0
+    k = 0
     while stack:
         dev = stack.pop()
         trace, end, tm = T.run_real_loop(cfg, dict(dev), default=T.IN, step_cap=cap)
@@ -326,8 +325,9 @@ def _deviations(cfg, cid, k, short, out: Outcome):
         nf = sum(1 for a in answers if a == T.FAIL)
         out.ev(f"D{len(dev)}/{end}/" + ("fails" if nf else "nofail"),
                (cid, "D", dev) if dev else None)
-        if not dev and len(trace) > short:
-            k -= 1
+        if not dev:
+            # deviation budget depends on the length of the undisturbed run
+            k = next(kk for n, kk in budget if len(trace) <= n)
         if len(dev) < k:
             last = dev[-1][0] if dev else -1
             for p in range(last + 1, len(trace)):
@@ -363,7 +363,7 @@ def run_case(case) -> Outcome:
             out.extra.get("H_closed_configs" if closed else "H_depth_bounded_configs", 0) + 1)
         h_tr = out.transitions - t0
         if len(out.violations) == nv0:
-            _deviations(cfg, cid, P["dev"], P["dev_short"], out)
+            _deviations(cfg, cid, P["dev"], out)
         out.extra["H_transitions"] = out.extra.get("H_transitions", 0) + h_tr
         out.extra["D_executions"] = out.extra.get("D_executions", 0) + (out.transitions - t0 - h_tr)
         out.extra["configs_explored"] = out.extra.get("configs_explored", 0) + 1
